@@ -52,9 +52,9 @@ package verifspec
 //@   loop 1 assigns gls.byImplementation, gls.byReference
 //@   loop 1 invariant 0 <= $i1 && $i1 <= len(pkgs) && glsAdded == $i1
 //@   loop 2 assigns sel.byFilter, sel.pendingDecls
-//@   loop 2 invariant glsAdded == len(pkgs)
+//@   loop 2 invariant glsAdded == len(pkgs) && all(f, forall(i, 0, len(sel.byFilter[f]), sel.byFilter[f][i] != nil))
 //@   loop 3 assigns sel.byFilter, sel.pendingDecls
-//@   loop 3 invariant glsAdded == len(pkgs)
+//@   loop 3 invariant glsAdded == len(pkgs) && all(f, forall(i, 0, len(sel.byFilter[f]), sel.byFilter[f][i] != nil))
 //@   oncall IsImplementation: assert glsAdded == len(pkgs)
 //@   oncall Include: assert glsAdded == len(pkgs)
 //@   oncall Include: assert a1 == has(gls.byImplementation, a0.LinkingName)
@@ -136,9 +136,12 @@ package verifspec
 //@   panics_only_if true
 //@   requires fc != nil && fc.pkgCtx != nil && forall(k, 0, len(functions), functions[k] != nil && functions[k].Name != nil)
 //@   requires fc.pkgCtx.Info != nil && fc.pkgCtx.Info.Info != nil
-//@   loop 1 assigns heap(pkgContext.pkgVars), heap(funcContext.allVars), heap(funcContext.localVars), heap(funcContext.objectNames)
+//@   requires -1000000000 <= fc.pkgCtx.indentation && fc.pkgCtx.indentation <= 1000000000
+//@   loop 1 assigns heap(pkgContext.pkgVars), heap(funcContext.allVars), heap(funcContext.localVars), heap(funcContext.objectNames), heap(Info.alive), heap(Info.objectFilter), heap(Info.methodFilter), fc.output, fc.posAvailable, fc.pkgCtx.indentation
+//@   loop 1 invariant fc.pkgCtx.indentation == old(fc.pkgCtx.indentation)
 //@   loop 1 invariant forall(k, 0, len(funcDecls), funcDecls[k] != nil && len(funcDecls[k].FullName) > 0 && funcDecls[k].FullName[0] == 102)
-//@   loop 2 assigns heap(pkgContext.pkgVars), heap(funcContext.allVars), heap(funcContext.localVars), heap(funcContext.objectNames)
+//@   loop 2 assigns heap(pkgContext.pkgVars), heap(funcContext.allVars), heap(funcContext.localVars), heap(funcContext.objectNames), heap(Info.alive), heap(Info.objectFilter), heap(Info.methodFilter), fc.output, fc.posAvailable, fc.pkgCtx.indentation
+//@   loop 2 invariant fc.pkgCtx.indentation == old(fc.pkgCtx.indentation)
 //@   loop 2 invariant forall(k, 0, len(funcDecls), funcDecls[k] != nil && len(funcDecls[k].FullName) > 0 && funcDecls[k].FullName[0] == 102)
 //@   ensures err == nil && isMainPkg(ref(fc.pkgCtx)) ==> len(decls) > 0 && decls[len(decls) - 1].FullName == "init:main"
 //@   ensures err == nil && isMainPkg(ref(fc.pkgCtx)) ==> forall(k, 0, len(decls) - 1, decls[k].FullName[0] == 102)
